@@ -5,6 +5,7 @@
 package main
 
 import (
+	"reflect"
 	"encoding/hex"
 	"fmt"
 	"math"
@@ -23,6 +24,8 @@ func main() {
 
 type typeStats struct {
 	accepted, rejected, drift, knownDrift int64
+	histMu                                sync.Mutex
+	hist                                  [][]byte // a few payloads accepted earlier (previous telegrams for the history check)
 }
 
 var (
@@ -42,7 +45,9 @@ func st(name string) *typeStats {
 	return s
 }
 
-// checkOne runs the oracle for one payload; a, b are reusable instances.
+var histCtr int64
+
+// checkOne runs the oracle for one payload.
 func checkOne(d spec.DPT, s *typeStats, p []byte) (accepted bool) {
 	a := dptx.New(d.Name)
 	err, pan := dptx.Unpack(a, p)
@@ -81,6 +86,43 @@ func checkOne(d spec.DPT, s *typeStats, p []byte) (accepted bool) {
 		}
 		r.Violate(tag, attrs, c, "%s: payload %x decodes to %s, re-encodes to %x which decodes to %s", d.Name, p, dptx.Show(a), p2, dptx.Show(b))
 		return true
+	}
+	// history independence: decoding p into an instance that has decoded other
+	// telegrams before must give the same value as decoding it into a fresh one
+	// (an application keeps one variable per group address and decodes into it)
+	if n := atomic.AddInt64(&histCtr, 1); n%16 == 0 || (n%2 == 0 && reflect.ValueOf(a).Elem().Kind() == reflect.Struct) {
+		// previous telegrams: payloads of this type that were accepted earlier in the run
+		// (kept per type), plus the bitwise complement of p
+		s.histMu.Lock()
+		prevs := append([][]byte(nil), s.hist...)
+		if len(prevs) > 3 {
+			k := int(n) % (len(prevs) - 2)
+			prevs = prevs[k : k+3]
+		}
+		if len(s.hist) < 8 {
+			s.hist = append(s.hist, append([]byte(nil), p...))
+		} else {
+			s.hist[int(n/4)%8] = append([]byte(nil), p...)
+		}
+		s.histMu.Unlock()
+		comp := make([]byte, len(p))
+		for i := range comp {
+			comp[i] = ^p[i]
+		}
+		if len(comp) > 1 {
+			comp[0] = 0
+		}
+		prevs = append(prevs, comp)
+		for _, prev := range prevs {
+			h := dptx.New(d.Name)
+			dptx.Unpack(h, prev) // may be rejected: the instance then keeps whatever it had
+			if e3, p3 := dptx.Unpack(h, p); e3 == nil && p3 == "" && !dptx.Equal(a, h) {
+				c["previous_payload"] = hex.EncodeToString(prev)
+				c["value_in_reused_instance"] = dptx.Show(h)
+				r.Violate("decode.history", map[string]string{"type": d.Name}, c, "%s: payload %x decodes to %s in a fresh instance but to %s in an instance that decoded %x before", d.Name, p, dptx.Show(a), dptx.Show(h), prev)
+				break
+			}
+		}
 	}
 	if want, ok := d.ExpectedReencoding(p); ok {
 		if hex.EncodeToString(want) != hex.EncodeToString(p2) {
